@@ -58,7 +58,12 @@ def _pre_neg(st, fr):
         st.set_iv(a, 0, 0)
 
 
-_PRE = {"round": _pre_round, "moderate": _pre_moderate, "pos": _pre_pos, "neg": _pre_neg}
+def _pre_pristine(st, fr):
+    from mlxsa.absint.run import _pre_snapshot
+    _pre_snapshot(st, fr)
+
+
+_PRE = {"pristine": _pre_pristine, "round": _pre_round, "moderate": _pre_moderate, "pos": _pre_pos, "neg": _pre_neg}
 
 
 def _run(job):
@@ -71,6 +76,8 @@ def _run(job):
         out = []
         if job["kind"] == "root":
             ctxs = [(job["target"], run.analyze_root(f, job["target"], job["model"]))]
+        elif job["kind"] == "masks":
+            ctxs = [("masks", run.analyze_masks(f))]
         elif job["kind"] == "bits":
             ctxs = [("bits " + job["target"], run.analyze_bits(f, job["target"]))]
         elif job["kind"] == "frontend":
@@ -88,6 +95,8 @@ def _run(job):
                 # post-conditions read atoms of the exit states: evaluate them before the next analysis resets the atom tables
                 if job.get("post") == "truncation":
                     run.truncation_postconditions(ctx, m)
+                if job.get("post") == "failure-unchanged":
+                    run.failure_unchanged_postconditions(ctx, m)
                 if job.get("post") == "round":
                     run.round_postconditions(ctx, m, f)
                 if job.get("post") == "cutoff":
